@@ -21,6 +21,7 @@ type ViolRec struct {
 // RunResult is what a worker reports for one simulated run.
 type RunResult struct {
 	Begin      *int64         `json:"begin,omitempty"` // marker line: run about to start
+	HB         bool           `json:"hb,omitempty"`    // heartbeat of a long run (keeps the supervisor's watchdog quiet)
 	Run        int64          `json:"run"`
 	Seed       uint64         `json:"seed"`
 	Evals      int            `json:"evals"`
@@ -154,6 +155,9 @@ func installOnFail() {
 	}
 }
 
+// heartbeat is called by long-running engines between evaluations.
+var heartbeat = func() {}
+
 func WorkerMain(propID, tier string, baseSeed uint64, start, stride int64, deadline time.Time, maxRuns int64, scratch string) int {
 	installOnFail()
 	def := Props[propID]
@@ -165,6 +169,14 @@ func WorkerMain(propID, tier string, baseSeed uint64, start, stride int64, deadl
 	defer out.Flush()
 	enc := json.NewEncoder(out)
 	_ = os.MkdirAll(scratch, 0o755)
+	lastHB := time.Now()
+	heartbeat = func() {
+		if time.Since(lastHB) > 10*time.Second {
+			lastHB = time.Now()
+			_ = enc.Encode(&RunResult{HB: true})
+			out.Flush()
+		}
+	}
 	n := int64(0)
 	for run := start; ; run += stride {
 		if maxRuns > 0 && run >= maxRuns {
